@@ -26,6 +26,7 @@ Transfers and the C++ they stand for
 | `pop a i d`              | `T r{std::move(c.back())}; c.pop_back();` — with `d = drop`: `c.erase(it)` / the element is overwritten by an assignment (destroyed in place, nothing is move-constructed) |
 | `swap a i j`             | `std::swap` of two elements of the same container (`std::reverse`) |
 | `fresh v d`              | a value made by the user's function that comes from no argument |
+| `shift a i`              | `*dest = std::move(*it)` inside `std::remove_if` / `std::unique`: the element is move-assigned to an earlier place of its own container (the model keeps elements, not memory positions: only the in-place move is logged) |
 
 `Dest`: appended to the result, destroyed, or appended to an in/out argument.
 -/
@@ -64,6 +65,7 @@ inductive Instr where
   | pop (a i : Nat) (d : Dest)
   | swap (a i j : Nat)
   | fresh (v : Nat) (d : Dest)
+  | shift (a i : Nat)
   deriving DecidableEq, Repr
 
 structure St where
@@ -153,6 +155,13 @@ def step (st : St) : Instr → St
     | none, _ => noteOob st a i
     | _, none => noteOob st a j
   | .fresh v d => put st d [{ id := v, st := .live, orig := false }]
+  | .shift a i =>
+    -- the element is move-assigned to another place of its own container (`std::remove_if`, `std::unique`): an in-place move
+    match getSlot st.args a i with
+    | none => noteOob st a i
+    | some s =>
+      let st := noteRam st s
+      { st with sw := st.sw ++ [s.id] }
 
 def run (p : List Instr) (st : St) : St := p.foldl step st
 
